@@ -22,7 +22,7 @@ RULE = ("A generated valid object of each of the seven formats receives exactly 
         "pair to rich fixed objects so no pair stays unexplored. Converse: every uncorrupted generated object, and objects "
         "sweeping every documented enumeration value (compose/release/variant/image types, image formats, label names, all "
         "architectures), dump without error. Non-trivial = the corrupted position is below the top level (nested variant, "
-        "image in a cell, section object); distinct = SHA-1 of object+corruption.")
+        "image in a cell, section object); distinct = SHA-1 of object+corruption. Half of the corruptions are applied to an object that has already been written successfully once, some by mutating a container in place; pattern fields additionally receive mechanically derived near misses (every single-character edit of a valid exemplar that a regex-free reference predicate rejects).")
 ASSUMPTIONS = ["values the code base does not document as invalid (blank release name/short, absolute instimage, trailing newlines) are deliberately absent from the table",
                "bool is an int in Python: True/False are not used as invalid integers"]
 FLOORS = {"distinct_nontrivial": 1200, "corruption": 800, "table-sweep": 150, "enumerations": 100}
@@ -97,6 +97,16 @@ def apply_special(fmt, obj, name, k):
             if not kids:
                 return None
             p, v = kids[k % len(kids)]
+            # prefer an arch that a HIGHER ancestor has but the immediate parent lacks (the rule is about the parent)
+            higher = set()
+            anc = v.parent.parent
+            while anc is not None:
+                higher |= set(anc.arches)
+                anc = anc.parent
+            borrowed = sorted(higher - set(v.parent.arches))
+            if borrowed:
+                v.arches = set(v.arches) | set([borrowed[k % len(borrowed)]])
+                return "%s.arches (arch of a grandparent the parent lacks)" % v.uid, 3
             if k % 2:
                 v.arches.add("s390x-not-in-parent")          # in place
             else:
